@@ -141,7 +141,7 @@ def reconstruct(F, b):
         a = R.call_args(bb)
         if a[0] != tree_expr:
             raise ValueError('child added to another tree')
-        if literals(b, R, bb) and any(l[0] not in ('true',) or not _is_assert(l) for l in literals(b, R, bb)):
+        if literals(b, R, bb) and any(not _is_assert(l) for l in literals(b, R, bb)):
             raise ValueError('conditional construction')
         parent, label, aff = a[1], a[2], a[3]
         if label[0] != 'const':
@@ -159,7 +159,24 @@ def reconstruct(F, b):
 
 
 def _is_assert(l):
-    return l[0] == 'true' and l[1][0] == 'bin'
+    """a precondition on the arguments, in either spelling (`assert!(a < b)` or `if !(a < b) { panic!(..) }`): a comparison whose operands are
+    parameters and constants only"""
+    if l[0] not in ('true', 'false'):
+        return False
+    e = l[1]
+    while e[0] == 'un' and e[1] == 'Not':
+        e = e[2]
+    if e[0] == 'bin' and e[1] in ('Lt', 'Le', 'Gt', 'Ge', 'Eq', 'Ne'):
+        ops = (e[2], e[3])
+    elif e[0] == 'call' and e[1].startswith(('PartialOrd::', 'PartialEq::')) and len(e[2]) == 2:
+        ops = e[2]
+    else:
+        return False
+    def simple(x):
+        while x[0] == 'cast':
+            x = x[1]
+        return x[0] in ('param', 'const')
+    return all(simple(x) for x in ops)
 
 
 def route(nodes, children, root, xval, env):
